@@ -269,6 +269,27 @@ def judge_slice(which, axis, by_name, value):
     exp_axes = [a for k, a in enumerate(g.axes) if k != axis]
     if len(s.axes) != len(exp_axes) or any(not np.array_equal(a, b) for a, b in zip(s.axes, exp_axes)):
         out.append(("slice_axes", "remaining axes", "differ"))
+    # the slice is the caller's: clamping / rescaling it in place (as invert_cdf_grid does with what it is given) leaves the
+    # source grid as it was, and the same slice taken again is the first one
+    # (only the slice's DATA is overwritten: the remaining axes are shared with the source grid on the unchanged tree, and
+    # the property says nothing about them)
+    keep = np.array(g.data, copy=True)
+    got = got.copy()
+    try:
+        sd = np.asarray(s.data)
+        if sd.flags.writeable:
+            sd[...] = 7 if sd.dtype.kind != "f" else -7.25
+    except Exception:
+        pass
+    if not np.array_equal(np.asarray(g.data), keep):
+        out.append(("slice_is_a_copy", "the source grid's data unchanged after the caller overwrote the slice's data", "source grid changed"))
+    else:
+        try:
+            s2 = grid_slice_interp(g, value, g.axis_names[axis] if by_name else axis)
+            if not np.array_equal(np.asarray(s2.data, dtype=np.float64), got):
+                out.append(("slice_is_a_copy", "the same slice again", "differs"))
+        except Exception as ex:
+            out.append(("slice_is_a_copy", "the same slice again", f"{type(ex).__name__}: {str(ex)[:60]}"))
     return out
 
 
